@@ -1,0 +1,29 @@
+//go:build verif
+
+package crypto
+
+// Accessors for the verification harness (properties C01-C03). Add-only; not
+// part of normal builds.
+
+// VerifSetCounters sets the send and receive counters so that values near
+// 2^63 and 2^64 are reachable without that many encryptions.
+func (s *SessionKey) VerifSetCounters(send, recv uint64) {
+	s.mu.Lock()
+	defer s.mu.Unlock()
+	s.sendNonce = send
+	s.recvNonce = recv
+}
+
+// VerifCounters returns the send and receive counters.
+func (s *SessionKey) VerifCounters() (send, recv uint64) {
+	s.mu.Lock()
+	defer s.mu.Unlock()
+	return s.sendNonce, s.recvNonce
+}
+
+// VerifIsInitiator returns the direction flag the key was derived with.
+func (s *SessionKey) VerifIsInitiator() bool {
+	s.mu.Lock()
+	defer s.mu.Unlock()
+	return s.isInitiator
+}
